@@ -21,6 +21,9 @@ TranslateError (broken tie).  Generated definitions (all prefixed s3_ / jwt_):
                                                    (`if b'<Contents>' not in response.content: raise <s3_verify_empty>`),
                                                    "add" (`self._verified_buckets.add(bucket)`); the model interprets them
   s3_verify_missing, s3_verify_empty : string      exceptions raised for a missing / an empty bucket
+  s3_verified_scope : string                       where the verified-bucket cache lives: "object" (`self._verified_buckets =
+                                                   set()` in __init__), "class" (class attribute), "process" (bound to a
+                                                   module-level container): the model of several store objects follows it
   s3_request_override_status : option Z            `status=` keyword of the _retry_object(retries, ...) call that S3ChunkStore.request
                                                    applies to a PER-CALL `retries` override (None: no such keyword)
   s3_request_override_forcelist_is_glitches : bool `status_forcelist=_DEFAULT_SERVER_GLITCHES` given to that call?
@@ -386,9 +389,26 @@ def item_store_state(repo, out):
     uses = _attr_uses(cls, '_verified_buckets')
     inside = _attr_uses(fn, '_verified_buckets')
     in_init = _attr_uses(init, '_verified_buckets')
-    if 'self._verified_buckets = set()' not in [ast.unparse(s) for s in init.body] or len(in_init) != 1:
+    # WHERE the cache lives is translated (the model of several store objects follows, Proofs/S3UnstreamedP.v breaks):
+    # "object" = `self._verified_buckets = set()` in __init__; "class" = `_verified_buckets = set()` in the class body and
+    # nothing in __init__; "process" = __init__ binds the attribute to (an entry of) a module-level container
+    init_src = [ast.unparse(s) for s in init.body]
+    class_level = [s for s in cls.body if isinstance(s, ast.Assign)
+                   and [ast.unparse(t) for t in s.targets] == ['_verified_buckets']]
+    module_sets = {t.id for n in tree.body if isinstance(n, ast.Assign) and ast.unparse(n.value) in ('set()', '{}', 'dict()')
+                   for t in n.targets if isinstance(t, ast.Name)}
+    bound = [s for s in init.body if isinstance(s, ast.Assign)
+             and [ast.unparse(t) for t in s.targets] == ['self._verified_buckets']]
+    if 'self._verified_buckets = set()' in init_src and len(in_init) == 1 and not class_level:
+        scope = 'object'
+    elif not in_init and len(class_level) == 1 and ast.unparse(class_level[0].value) == 'set()':
+        scope = 'class'
+    elif (len(bound) == 1 and len(in_init) == 1 and not class_level
+          and {n.id for n in ast.walk(bound[0].value) if isinstance(n, ast.Name)} & module_sets):
+        scope = 'process'
+    else:
         raise TranslateError('__init__: the verified-bucket cache does not start as an empty set')
-    if len(uses) != len(inside) + 1 or len(inside) != steps.count('return_if_cached') + steps.count('add'):
+    if len(uses) != len(inside) + len(in_init) or len(inside) != steps.count('return_if_cached') + steps.count('add'):
         raise TranslateError('_verified_buckets is used outside __init__ / the recognised statements of _verify_bucket')
     if any('_verified_buckets' in ast.unparse(n) for n in tree.body if n is not cls):
         raise TranslateError('_verified_buckets is used outside S3ChunkStore')
@@ -421,6 +441,7 @@ def item_store_state(repo, out):
     out.append('Definition s3_verify_steps : list string := %s.' % coq_strings(steps))
     out.append('Definition s3_verify_missing : string := %s.' % coq_string(missing))
     out.append('Definition s3_verify_empty : string := %s.' % coq_string(empty))
+    out.append('Definition s3_verified_scope : string := %s.' % coq_string(scope))
 
 
 # ---------------------------------------------------------------------------------------------------
